@@ -15,7 +15,7 @@ FEATS = ('send', 'tempo', 'spawn', 'pause', 'rand', 'raise', 'cond', 'stop')
 
 def sig(mode, tr, at, why):
     ops = {i['op'] for b in tr['prog']['routines'].values() for i in b}
-    feat = '+'.join(sorted(ops & {'T', 'X', 'Z', 'K', 'KC', 'D', 'W', 'G'})) or 'plain'
+    feat = '+'.join(sorted(ops & {'T', 'TB', 'X', 'Z', 'K', 'KC', 'D', 'W', 'G'})) or 'plain'
     return 'modes:%s:%s:%s' % (mode, why, feat)
 
 
